@@ -375,6 +375,7 @@ Requirement conv_req(const Req &r) {
 struct TableProvider : DependencyProvider {
     const UniverseT &u;
     bool share;  // hand out copies of stored vectors (refcount >= 2 on the Rust side) instead of fresh ones
+    bool inplace = false;  // favored / locked point into the candidates vector that is returned
     std::ostringstream calls;
     std::vector<std::vector<VersionSetId>> unions;
     std::vector<SolvableId> favored, locked;
@@ -444,6 +445,14 @@ struct TableProvider : DependencyProvider {
         }
         r.favored = p.favored >= 0 ? &favored[n.id] : nullptr;
         r.locked = p.locked >= 0 ? &locked[n.id] : nullptr;
+        if (inplace) {
+            // the pointers refer to elements of the candidates vector that is being returned
+            const Vector<SolvableId> &cv = r.candidates;
+            for (size_t i = 0; i < cv.size(); ++i) {
+                if (p.favored >= 0 && cv[i].id == uint32_t(p.favored)) r.favored = &cv[i];
+                if (p.locked >= 0 && cv[i].id == uint32_t(p.locked)) r.locked = &cv[i];
+            }
+        }
         if (p.hint == 1) {
             // HintDependenciesAvailable::All is not expressible; Some(all candidates) is the same set
             if (share) r.hint_dependencies_available = stored_cands[n.id];
@@ -509,6 +518,7 @@ void run_solve(const std::string &id, long flags, Toks &t) {
     long keep_bad = 0;
     {
         TableProvider prov(u, (flags & 1) != 0);
+        prov.inplace = (flags & 8) != 0;
         Vector<Requirement> reqs;
         Vector<VersionSetId> cons;
         Vector<SolvableId> soft;
@@ -587,6 +597,46 @@ int main() {
             long v;
             while (is >> v) t.t.push_back(v);
             run_solve(id, flags, t);
+        } else if (op == "alias") {
+            // aliasing arguments: what std::vector / std::string do is the expectation
+            std::string mode;
+            is >> mode;
+            std::ostringstream o;
+            if (mode == "push_own") {
+                Vector<int32_t> v;
+                v.push_back(41);
+                for (int i = 0; i < 6; ++i) v.push_back(v[size_t(i) / 2]);
+                Vector<int32_t> w = v;          // shared: push detaches
+                w.push_back(w[0]);
+                for (size_t i = 0; i < v.size(); ++i) o << ' ' << v[i];
+                o << " |";
+                for (size_t i = 0; i < w.size(); ++i) o << ' ' << w[i];
+            } else if (mode == "push_own_move") {
+                Vector<int32_t> v;
+                v.push_back(7);
+                v.push_back(8);
+                v.push_back(std::move(v[1]));
+                for (size_t i = 0; i < v.size(); ++i) o << ' ' << v[i];
+            } else if (mode == "str_null_view") {
+                std::string_view e;
+                String s{e};
+                String t("x");
+                t = std::string_view();
+                o << ' ' << std::string_view(s).size() << ' ' << std::string_view(t).size();
+            } else if (mode == "str_assign_subview") {
+                String s("hello world");
+                s = std::string_view(s).substr(6);
+                o << ' ' << std::string_view(s);
+            } else if (mode == "str_assign_cptr") {
+                String s("hello world");
+                s = s.data() + 6;
+                o << ' ' << std::string_view(s);
+            } else if (mode == "const_slice") {
+                const Vector<int32_t> v{1, 2, 3};
+                Slice<const int32_t> sl = v;
+                o << ' ' << sl.size() << ' ' << sl[2];
+            }
+            std::cout << "alias " << mode << o.str() << '\n' << std::flush;
         } else if (op == "strself") {
             // finding: String::operator=(const String&) has no self-assignment guard
             std::string mode;
